@@ -26,7 +26,16 @@ def get_type_layout(
             path_to_key[bin_path] = key
         else:
             assert entrypoints is False, f'duplicate key {key}'
-            path_to_key[bin_path] = f'{arg.prim}_{i}'
+            path_to_key[bin_path] = None  # generated below, once all annotated names are known
+
+    used = set(reserved)
+    for i, (bin_path, arg) in enumerate(flat_args):
+        if path_to_key[bin_path] is None:
+            key = f'{arg.prim}_{i}'
+            while key in used:
+                key += '_'
+            used.add(key)
+            path_to_key[bin_path] = key
 
     idx_to_path = dict(enumerate(path_to_key))
     if len(reserved) == 0 and infer_names is False and entrypoints is False:
